@@ -70,6 +70,16 @@ enum Expr {
     Bin(u8, Box<Expr>, Box<Expr>),
     Func(u8, u16, Vec<Expr>),
     FuncVar(u8, u16, Vec<Expr>),
+    /// the sub-expression followed by an inert PtgAttr token (PtgAttrIf / Goto / Semi …, PtgAttrChoose): no text
+    Inert(InertTok, Box<Expr>),
+}
+
+#[derive(Clone, Debug, PartialEq)]
+enum InertTok {
+    /// etpg ∈ {1 semi, 2 if, 8 goto, 0x20, 0x21} with its 16-bit operand
+    Skip(u8, u16),
+    /// PtgAttrChoose: the jump table (cOffset + 1 entries)
+    Choose(Vec<u16>),
 }
 
 #[derive(Clone, Debug)]
@@ -220,6 +230,10 @@ impl Expr {
                 }
                 s
             }
+            Expr::Inert(InertTok::Skip(e, w), x) => format!("AT {e} {w} {}", x.wire()),
+            Expr::Inert(InertTok::Choose(o), x) => {
+                format!("AC {} {}", o.iter().map(|v| v.to_string()).collect::<Vec<_>>().join(","), x.wire())
+            }
         }
     }
 
@@ -250,6 +264,14 @@ impl Expr {
             "B" => Expr::Bool(n::<u8>(w) == 1),
             "E" => Expr::Err(n(w)),
             "M" => Expr::Missing,
+            "AT" => {
+                let t = InertTok::Skip(n(w), n(w));
+                Expr::Inert(t, Box::new(Expr::parse(w)))
+            }
+            "AC" => {
+                let offs = w.next().unwrap().split(',').map(|x| x.parse().unwrap()).collect();
+                Expr::Inert(InertTok::Choose(offs), Box::new(Expr::parse(w)))
+            }
             "U+" => Expr::UPlus(Box::new(Expr::parse(w))),
             "U-" => Expr::UMinus(Box::new(Expr::parse(w))),
             "PCT" => Expr::Percent(Box::new(Expr::parse(w))),
@@ -311,6 +333,7 @@ impl Expr {
             Expr::Bool(v) => out.push_str(if *v { "TRUE" } else { "FALSE" }),
             Expr::Err(c) => out.push_str(ERRS.iter().find(|e| e.0 == *c).unwrap().1),
             Expr::Missing => {}
+            Expr::Inert(_, e) => e.render(ctx, out),
             Expr::UPlus(e) => {
                 out.push('+');
                 e.render(ctx, out);
@@ -373,12 +396,13 @@ impl Expr {
             Expr::Bin(..) => "bin",
             Expr::Func(..) => "func",
             Expr::FuncVar(..) => "funcvar",
+            Expr::Inert(..) => "inert",
         }
     }
 
     fn children(&self) -> Vec<&Expr> {
         match self {
-            Expr::UPlus(e) | Expr::UMinus(e) | Expr::Percent(e) | Expr::Paren(e) | Expr::Sum(e) => vec![e],
+            Expr::UPlus(e) | Expr::UMinus(e) | Expr::Percent(e) | Expr::Paren(e) | Expr::Sum(e) | Expr::Inert(_, e) => vec![e],
             Expr::Bin(_, x, y) => vec![x, y],
             Expr::Func(_, _, a) | Expr::FuncVar(_, _, a) => a.iter().collect(),
             _ => vec![],
@@ -534,7 +558,30 @@ fn gen_expr(rng: &mut Rng, depth: u32, ctx: &Ctx, o: &GenOpts) -> Expr {
         48..=53 => Expr::Percent(sub(rng)),
         54..=65 => Expr::Paren(sub(rng)),
         66..=69 => Expr::Sum(sub(rng)),
-        70..=84 => {
+        70..=73 => {
+            // CHOOSE(sel, v1 … vn) as Excel writes it: sel, PtgAttrChoose(cOffset = n, n + 1 offsets), v1, PtgAttrGoto, …
+            let n = rng.range(1, 6) as usize;
+            let offs: Vec<u16> = (0..=n).map(|_| rng.below(400) as u16).collect();
+            let mut args = vec![Expr::Inert(InertTok::Choose(offs), sub(rng))];
+            for _ in 0..n {
+                args.push(Expr::Inert(InertTok::Skip(8, rng.below(300) as u16), sub(rng)));
+            }
+            Expr::FuncVar(rng.below(3) as u8, 100, args)
+        }
+        74..=77 => {
+            // IF(c, t [, e]): c, PtgAttrIf, t, PtgAttrGoto [, e, PtgAttrGoto], PtgFuncVar IF; sometimes volatile (PtgAttrSemi)
+            let mut args = vec![Expr::Inert(InertTok::Skip(2, rng.below(300) as u16), sub(rng))];
+            for _ in 0..rng.range(1, 2) {
+                args.push(Expr::Inert(InertTok::Skip(8, rng.below(300) as u16), sub(rng)));
+            }
+            let e = Expr::FuncVar(rng.below(3) as u8, 1, args);
+            if rng.chance(1, 4) {
+                Expr::Inert(InertTok::Skip(*rng.pick(&[1u8, 0x20, 0x21]), 0), Box::new(e))
+            } else {
+                e
+            }
+        }
+        78..=87 => {
             // fixed arity: indices whose table arity is small
             let cls = rng.below(3) as u8;
             let idx = loop {
@@ -796,6 +843,19 @@ fn gen_raw(rng: &mut Rng, fmt: &str, valid: &[u8]) -> Vec<u8> {
             }
         }
     }
+    if fmt == "xlsb" && rng.chance(1, 12) {
+        // PtgMemFunc wrappers around the body, around the nesting limit
+        let k = *rng.pick(&[1usize, 2, 3, 62, 63, 64, 65, 66, 70]);
+        for _ in 0..k {
+            if body.len() > 60000 {
+                break;
+            }
+            let mut w = vec![*rng.pick(&[0x29u8, 0x49, 0x69])];
+            w.extend_from_slice(&le16(body.len() as u16));
+            w.extend_from_slice(&body);
+            body = w;
+        }
+    }
     if fmt == "xls" {
         if rng.chance(1, 20) {
             // inconsistent cce
@@ -866,6 +926,16 @@ fn corpus() -> Vec<&'static str> {
         "enc S=5331 N= X=0 | S 1 65279,65",
         "enc S=5331 N= X=0 | S 1 65534,65",
         "enc S=5331 N= X=0 | S 1 48111,191,65",
+        // P4 xlsb PtgAttrChoose skipped 10 bytes whatever cOffset: CHOOSE with other than 4 arguments failed (Ptg(0) …)
+        "enc S=5331 N= X=0 | FV 0 100 3 AC 6,10,14 I 1 AT 8 3 I 2 AT 8 0 I 3",
+        "enc S=5331 N= X=0 | FV 0 100 4 AC 8,12,16,20 I 1 AT 8 3 I 2 AT 8 3 I 3 AT 8 0 I 4",
+        "enc S=5331 N= X=0 | FV 0 100 5 AC 10,14,18,22,26 I 1 AT 8 3 I 2 AT 8 3 I 3 AT 8 3 I 4 AT 8 0 I 5",
+        "enc S=5331 N= X=0 | FV 0 1 3 AT 2 5 B 1 AT 8 9 I 2 AT 8 3 I 3",
+        // P5 xlsb PtgMemFunc nested without bound: stack overflow (abort); run in a child process with a 256 KiB stack
+        "deep xlsb 10000",
+        "deep xlsb 63",
+        "deep xlsb 64",
+        "deep xlsb 65",
         // well-formed odds and ends
         "enc S=5331 N=4d794e616d65 X=0 | FV 0 4 3 OP 3 R 0 0 27 1 0 I 2 U- PAR N 1 0 M",
         "enc S=5331 N= X=0 | FN 1 19 0",
@@ -1766,6 +1836,53 @@ fn run_ods_case(oc: &OdsCase, rep: &mut Report) {
     }
 }
 
+/// `n` nested PtgMemFunc wrappers around `=1`
+fn deep_rgce(n: usize) -> Vec<u8> {
+    let mut v = vec![0x1e, 1, 0];
+    for _ in 0..n {
+        let mut w = vec![0x29];
+        w.extend_from_slice(&le16(v.len() as u16));
+        w.extend_from_slice(&v);
+        v = w;
+    }
+    v
+}
+
+/// child side of a `deep` case: decode on a thread with a small stack, print the result
+fn deep_child(n: usize) {
+    let rgce = deep_rgce(n);
+    let h = std::thread::Builder::new()
+        .stack_size(256 * 1024)
+        .spawn(move || canon(guarded(|| hb::c14_formula_text(&rgce, &[], &[]))))
+        .expect("spawn");
+    let r = h.join().unwrap_or_else(|_| "panic:thread".into());
+    println!("RESULT {r}");
+}
+
+/// a stack overflow aborts the process: the case runs in a child process and its death is the violation
+fn run_deep(n: usize, drv: &mut Driver, rep: &mut Report) {
+    let input = format!("deep xlsb {n}");
+    rep.case(&input, true);
+    rep.count("deep_memfunc_child_process");
+    let exe = std::env::current_exe().expect("current_exe");
+    let out = std::process::Command::new(exe)
+        .args(["--replay", &format!("deepchild {n}"), "--driver", "-", "--out", "-"])
+        .output()
+        .expect("child");
+    let model = decode_model(&drv.ask(&format!("xlsb {} S= N= X=", hex(&deep_rgce(n)))));
+    let stdout = String::from_utf8_lossy(&out.stdout).to_string();
+    let imp = match stdout.lines().find_map(|l| l.strip_prefix("RESULT ")) {
+        Some(r) if out.status.success() => strip_panic(r),
+        _ => format!("process died: {:?}", out.status),
+    };
+    if imp.starts_with("process died") || imp == "panic" {
+        rep.fail("impl_vs_spec", "xlsb_memfunc_stack_overflow", &input, &imp, &model, "Ok or Err (no abort, no panic)");
+    }
+    if imp != model {
+        rep.fail("impl_vs_model", "xlsb_memfunc_nesting", &input, &imp, &model, "");
+    }
+}
+
 fn run_input(input: &str, drv: &mut Driver, rep: &mut Report, shrunk: &mut u32) {
     let words: Vec<&str> = input.split_whitespace().collect();
     match words[0] {
@@ -1778,6 +1895,7 @@ fn run_input(input: &str, drv: &mut Driver, rep: &mut Report, shrunk: &mut u32) 
             report_expr_case(&e, &ctx, drv, rep, shrunk);
         }
         "dn" => run_dn(&unhex(words[1]), drv, rep),
+        "deep" => run_deep(words[2].parse().unwrap(), drv, rep),
         "xlsxf" => run_xlsx_case(&XlsxCase::parse(&words), drv, rep, shrunk),
         "odsf" => run_ods_case(&OdsCase::parse(&words), rep),
         "file" => run_file_case(&FileCase::parse(&words), drv, rep),
@@ -1810,6 +1928,12 @@ fn run_input(input: &str, drv: &mut Driver, rep: &mut Report, shrunk: &mut u32) 
 
 fn main() {
     let args = Args::parse();
+    if let Some(r) = &args.replay {
+        if let Some(n) = r.strip_prefix("deepchild ") {
+            deep_child(n.parse().unwrap());
+            return;
+        }
+    }
     let mut drv = Driver::spawn(&args.driver);
     let mut rep = Report::new(
         "C14",
